@@ -257,6 +257,8 @@ IxOK(pre, e, post) ==
   /\ Chk("C01", "solvent", Solvent(post))
   /\ Chk("C01", "no_free_lunch",
          (e.ok /\ IsSwapName(e.name)) => NoFreeLunch(SegAfter(pre, e, post)[APool(e)]))
+  /\ Chk("C02", "hist_steps", \A k \in DOMAIN e.swaps : \A i \in DOMAIN e.swaps[k].steps :
+                                  StepOK(StepX(e.swaps[k], e.swaps[k].steps[i]), StepR(e.swaps[k].steps[i])))
   /\ IF IsSwapName(e.name)
      THEN /\ Chk("C03", "swap_bounds", C03Swap(pre, e, post))
           /\ Chk("C06", "swap_split", NoTransferFee(pre, APool(e)) => C06Swap(pre, e, post))
